@@ -863,8 +863,14 @@ impl Server for Gs3Server {
                     Outcome::Malformed => {
                         // truncated, or complete but for another session, or of the wrong kind
                         let mut d = vec![9];
-                        match cx.draw(3) {
+                        match cx.draw(4) {
                             0 => d.push(session[0]),
+                            3 => {
+                                // complete, for this session, but the challenge is not a number
+                                d.extend_from_slice(&session);
+                                d.extend_from_slice(*[&b"12ab"[..], &b"x"[..], &b"1 2"[..], &b"99999999999"[..], &b"--1"[..]].get(cx.draw(5) as usize).unwrap());
+                                d.push(0);
+                            }
                             v => {
                                 if v == 1 {
                                     d.extend_from_slice(&[session[0], session[1], session[2], session[3] ^ 0x5a]);
